@@ -90,6 +90,19 @@ def run(ctx, r1='C10.1', r2='C10.2', r3='C10.3'):
                        'the start-up removal pass has no per-record '
                        'condition besides its domain (facts: %s)' %
                        sorted(N.show(f) for f in mine))
+    restart_repair(ctx, r3)
+    # shared with C09.1: the start-up reconciliation of a new master covers
+    # every server that has stored records and removes exactly the records
+    # the model does not hold
+    from . import c09
+    c09._startup(ctx, master, rule=r2)
+
+
+def restart_repair(ctx, r3='C10.3'):
+    """An instance recorded under several servers at a restart is taken off
+    every one of them, in the model (Server.remove: capacity and affinity
+    counters) and in the store alike - shared with C01.9 and C04.1."""
+    nz = N.Normaliser()
     # restart handling
     loader = ctx.index.get_class(K.LOADER, 'Loader')
     func = loader.methods.get('restore_placements')
@@ -226,16 +239,41 @@ def run(ctx, r1='C10.1', r2='C10.2', r3='C10.3'):
            'the integrity map is built from every server and every '
            'restored instance', construct='integrity map construction')
     _feeder(ctx, loader, nz, r3)
-    # shared with C09.1: the start-up reconciliation of a new master covers
-    # every server that has stored records and removes exactly the records
-    # the model does not hold
-    from . import c09
-    c09._startup(ctx, master, rule=r2)
 
+
+
+def _server_deletion(ctx, rule='C10.3'):
+    """Deleting a server through the API removes the records under it on
+    every path: Loader.remove_server un-places its instances in the model
+    only and relies on that - records left behind are not seen as "before"
+    by the next publication, which then creates the new records next to
+    them."""
+    mod = ctx.index.module('treadmill.scheduler.masterapi')
+    func = mod.functions.get('delete_server') if mod else None
+    ctx.require(func is not None, 'masterapi.delete_server')
+    graph = ctx.cfg(func)
+
+    def drops(node):
+        for call in C.node_calls(node):
+            if K.callee_text(call).endswith('ensure_deleted') or \
+                    K.is_meth(call, 'delete', 'ensure_deleted'):
+                if any('path.placement(' in K.rtxt(func, a)
+                       for a in call.args):
+                    return True
+        return False
+    sites = [n for n in graph.nodes if drops(n)]
+    skip = K.find_path(graph.entry, [graph.exit], cut_node=drops,
+                       follow_exc=False)
+    ctx.ob(rule, func, sites[0] if sites else None,
+           bool(sites) and skip is None,
+           'delete_server removes the placement records of the server on '
+           'every path', path=K.describe(skip) if skip else None,
+           construct='server deletion drops its records')
 
 
 def check(ctx):
     run(ctx)
+    _server_deletion(ctx)
     # shared with C09.4 / C11.4: what the new master needs to complete its
     # start-up on the stored state - a replaced server gets its recorded
     # placement back, and a recorded identity (0 included) is taken back
